@@ -43,6 +43,10 @@ Clauses ==
   \cup Flag(\A a \in {C.leader[v] : v \in 1..M} \ {0, 0 - 1} :
                 (C.par[a] # 0 /\ \E v \in 1..M : v # a /\ C.leader[v] = a) => ~Rare(GroupRows(a), C.mf, C.n),
             "C18_rare_ancestor_not_merged_up")
+  \* ... and only then: a value is never merged beyond the first ancestor group that is frequent enough
+  \cup Flag(\A v \in 1..M : LET fl == FinalLeader(C.par, C.cnt, C.mf, C.n, v) IN
+                ~(C.leader[v] # fl /\ C.leader[v] \in Ancestors(C.par, fl)),
+            "C18_frequent_group_merged_further_up")
   \cup Flag(\A v \in 1..M : C.leader[v] = FinalLeader(C.par, C.cnt, C.mf, C.n, v), "Conf_leaders")
   \cup (IF C.nunknown > 0 THEN Flag(\A i \in DOMAIN C.unkleader : C.unkleader[i] = 0 - 1, "C18_unknown_not_with_missing") ELSE {})
   \* transform outputs each value's group leader; missing / dropped unknown values stay missing
